@@ -169,6 +169,54 @@ def _bind(V, sig):
     V.cover('accept')
 
 
+@utype.parse
+def s9(a: int, b: int = Param(5, no_input=True), c: int = 3, *, d: int = Param(6, no_input=True)):
+    return record(a=a, b=b, c=c, d=d)
+
+
+@ob('bind/no-input', marks=['accept', 'reject'], budget=(60, 200),
+    bounds='def s9(a, b=Param(5, no_input=True), c=3, *, d=Param(6, no_input=True)): a by position or name, b and c by position, by name or '
+           'omitted, d by name or omitted; values unbounded solver int | "5" | "x": the body runs once with the converted a and c and '
+           'with the defaults of the no-input parameters whatever was passed for them')
+def bind_no_input(V):
+    how = {n: V.pick(n + '_how', ['pos', 'kw', 'omit'] if n != 'a' else ['pos', 'kw']) for n in ('a', 'b', 'c')}
+    # positional arguments are a prefix
+    if how['a'] != 'pos' and 'pos' in (how['b'], how['c']):
+        return
+    if how['b'] != 'pos' and how['c'] == 'pos':
+        return
+    args, kwargs, want, valid = [], {}, {'b': 5, 'c': 3, 'd': 6}, True
+    for n in ('a', 'b', 'c'):
+        if how[n] == 'omit':
+            continue
+        raw, conv, ok = sym_value(V, n)
+        (args.append(raw) if how[n] == 'pos' else kwargs.__setitem__(n, raw))
+        if n != 'b':
+            want[n] = conv
+            valid = valid and ok
+    if V.bool('d_kw'):
+        kwargs['d'] = sym_value(V, 'd')[0]
+    del REC[:]
+    try:
+        s9(*args, **kwargs)
+        out = ('ok',)
+    except exc.ParseError as e:
+        out = ('err', e)
+    except Exception as e:  # noqa
+        out = ('crash', e)
+    det = lambda: 's9(*%r, **%r): expected body arguments %r ; decorated -> %s, body saw %r' % (
+        args, kwargs, want, out[0] if out[0] == 'ok' else '%s %r' % (out[0], out[1]), REC)
+    V.check(out[0] != 'crash', 'bind:crash:no-input', det)
+    if not valid:
+        V.check(out[0] == 'err' and not REC, 'bind:invalid-argument-accepted', det)
+        V.cover('reject')
+        return
+    V.check(out[0] == 'ok' and len(REC) == 1, 'bind:python-binds-but-rejected', det)
+    got = REC[0]
+    V.check(all(type(got[k]) is type(want[k]) and got[k] == want[k] for k in want), 'bind:value:no-input', det)
+    V.cover('accept')
+
+
 for _s in SIGS:
     ob('bind/' + _s, marks=['accept', 'reject', 'python-refuses'], budget=(100, 400),
        bounds='signature %s; number of positionals 0..max (+2 for *args), a presence bit per keyword spelling (names, '
